@@ -425,11 +425,11 @@ def run(chk):
     from .c16 import run_subjects
     # the predicates that decide which visibility edges exist (valid-region wedge, blocking test)
     run_subjects(chk, prog, chk.tier, rule_id="VIS-PREDICATES", only=["inValidRegion", "cornerSide", "vecDir"], floor=3)
-    rule_bend_symmetry(chk, prog, chk.tier)
-    rule_blocker_recorded(chk, prog)
-    rule_euclid(chk, prog)
-    rule_heuristic(chk, prog)
-    rule_astar(chk, prog)
-    rule_node_order(chk, prog)
-    rule_cost(chk, prog)
-    rule_edge_length(chk, prog)
+    chk.guard(rule_bend_symmetry, chk, prog, chk.tier)
+    chk.guard(rule_blocker_recorded, chk, prog)
+    chk.guard(rule_euclid, chk, prog)
+    chk.guard(rule_heuristic, chk, prog)
+    chk.guard(rule_astar, chk, prog)
+    chk.guard(rule_node_order, chk, prog)
+    chk.guard(rule_cost, chk, prog)
+    chk.guard(rule_edge_length, chk, prog)
